@@ -166,10 +166,38 @@ def msg_class(e):
     return 'other'
 
 
+def kind_of(s):
+    """the class build_witness_set sorts the script into"""
+    if isinstance(s, NativeScript):
+        return 'native'
+    if isinstance(s, PlutusV1Script) or type(s) is bytes:
+        return 'v1'
+    if isinstance(s, PlutusV2Script):
+        return 'v2'
+    if isinstance(s, PlutusV3Script):
+        return 'v3'
+    return 'other'
+
+
+def sref(s):
+    return [script_hash(s).payload.hex(), kind_of(s)]
+
+
+def script_tables(b):
+    """the builder's script tables, read table by table (NOT through all_scripts / scripts / build_witness_set)"""
+    return {'native': [sref(s) for s in (b.native_scripts or [])],
+            'inputs': [sref(s) for s in b._inputs_to_scripts.values()],
+            'mint': [sref(s) for s, _ in b._minting_script_to_redeemers],
+            'wdrl': [sref(s) for s, _ in b._withdrawal_script_to_redeemers],
+            'cert': [sref(s) for s, _ in b._certificate_script_to_redeemers],
+            'refs': [sref(s) for s in b._reference_scripts]}
+
+
 def hooked(self, addr):
     I = INTERN[0]
     pp = self.context.protocol_param
     rec = {
+        'ss': script_tables(self),
         'has_addr': bool(addr),
         'addr': bytes(addr).hex() if addr else None,
         'inputs': [I.put(u) for u in self.inputs],
@@ -200,6 +228,56 @@ TB.TransactionBuilder._set_collateral_return = hooked
 
 
 # ------------------------------------------------------------------ scenario -> builder
+def apply_trigger(b, sc, trig, fresh, red):
+    """registers one script use with the builder.  kind = purpose + how the script is supplied:
+       spend:  wit / native_wit (script object), ref / ref_native (separate reference UTxO), addr (script argument omitted,
+               the reference UTxO is discovered among the UTxOs at the script address), self / self_native (the spent UTxO
+               carries the script in its own output; `via` = what is passed as script argument on top of that)
+       mint / wdrl / cert (script object), mint_ref / wdrl_ref / cert_ref (reference UTxO)"""
+    k = trig['kind']
+    if k == 'none':
+        return
+    script = mk_script(trig['script'])
+    plutus = trig['script']['kind'] != 'native'
+    if k in ('wit', 'native_wit', 'ref', 'ref_native', 'addr', 'self', 'self_native'):
+        su = fresh(trig['utxo'])
+        datum = DATUM if sc['utxos'][trig['utxo']].get('dh') == 'hash' else None
+        if k in ('wit', 'native_wit'):
+            arg = script
+        elif k in ('ref', 'ref_native'):
+            arg = fresh(trig['ref'])
+        elif k == 'addr':
+            arg = None
+        else:
+            via = trig.get('via', 'none')
+            arg = None if via == 'none' else (script if via == 'script' else fresh(trig['ref']))
+        if plutus:
+            b.add_script_input(su, arg, datum, red())
+        else:
+            b.add_script_input(su, arg)
+        return
+    purpose = k.split('_')[0]
+    arg = fresh(trig['ref']) if k.endswith('_ref') else script
+    r = red() if plutus else None
+    if purpose == 'mint':
+        b.add_minting_script(arg, r)
+        ma = b.mint or MultiAsset()
+        ma[script_hash(script)] = Asset({AssetName(b'tok'): trig.get('qty', 1)})
+        b.mint = ma
+    elif purpose == 'wdrl':
+        w = b.withdrawals or Withdrawals()
+        w[bytes(Address(staking_part=script_hash(script), network=Network.TESTNET))] = trig.get('amount', 0)
+        b.withdrawals = w
+        b.add_withdrawal_script(arg, r)
+    elif purpose == 'cert':
+        if b.certificates is None:
+            b.certificates = []
+        b.certificates.append(StakeDelegation(StakeCredential(script_hash(script)), PoolKeyHash(bytes([0x44]) * 28)))
+        b.add_certificate_script(arg, r)
+    else:
+        raise ValueError(k)
+
+
 def prepare(sc):
     utxos = [mk_utxo(u) for u in sc['utxos']]
     umap = [[u.input.transaction_id.payload.hex(), u.input.index, u.output.to_cbor().hex()] for u in utxos]
@@ -210,31 +288,10 @@ def prepare(sc):
         b.collateral_return_threshold = sc['threshold']
     if sc.get('fee_buffer') is not None:
         b.fee_buffer = sc['fee_buffer']
-    trig = sc['trigger']
-    k = trig['kind']
-    red = lambda: Redeemer(PlutusData(), ExecutionUnits(*trig['eu'])) if trig.get('eu') else Redeemer(PlutusData())
-    if k == 'none':
-        pass
-    elif k in ('wit', 'native_wit'):
-        # spend a UTxO at the script's address, script supplied in the witness set
-        su = fresh(trig['utxo'])
-        script = mk_script(trig['script'])
-        if k == 'native_wit':
-            b.add_script_input(su, script)
-        else:
-            b.add_script_input(su, script, DATUM if sc['utxos'][trig['utxo']].get('dh') == 'hash' else None, red())
-    elif k in ('ref', 'ref_native'):
-        su, ru = fresh(trig['utxo']), fresh(trig['ref'])
-        if k == 'ref_native':
-            b.add_script_input(su, ru)
-        else:
-            b.add_script_input(su, ru, DATUM if sc['utxos'][trig['utxo']].get('dh') == 'hash' else None, red())
-    elif k == 'mint':
-        script = mk_script(trig['script'])
-        b.add_minting_script(script, red())
-        b.mint = MultiAsset({script_hash(script): Asset({AssetName(b'tok'): trig.get('qty', 1)})})
-    else:
-        raise ValueError(k)
+    eu = sc['trigger'].get('eu')
+    red = lambda: Redeemer(PlutusData(), ExecutionUnits(*eu)) if eu else Redeemer(PlutusData())
+    for trig in [sc['trigger']] + list(sc.get('extra', [])):
+        apply_trigger(b, sc, trig, fresh, red)
     for i in sc.get('inputs', []):
         b.add_input(fresh(i))
     for i in sc.get('potential', []):
@@ -272,6 +329,8 @@ def handler(sc, payload):
             res['body'] = body.to_cbor().hex()
             res['fee'] = body.fee
             res['n_coll'] = len(body.collateral) if body.collateral else 0
+            # the witness set that goes with this body (redeemers decide whether the transaction runs Plutus scripts)
+            res['wits'] = b.build_witness_set().to_cbor().hex()
         except Exception as e:
             res['exc'] = err_kind(e)
             res['msg'] = str(e)[:160]
